@@ -92,7 +92,7 @@ def gen_messages(ctx, t, n):
                         body = bytes([rng.choice([row["type"], 0, 1, 2, 3, 4])] * rng.randint(1, 3)) + body
                     out.append((direction, row["cls"](subroutine=body), ("sub", list(body))))
                 else:
-                    ln = rng.choice([0, 1, 2, 3, 5, 8, 16, 33, 64, rng.randint(0, 64)])
+                    ln = rng.choice([0, 1, 2, 3, 5, 8, 16, 33, 64, rng.randint(0, 64), rng.randint(0, 64), 255, 256, 257, 300, 1000])
                     vals = []
                     for _ in range(ln):
                         m = rng.random()
@@ -173,8 +173,7 @@ def run(ctx):
     ctx.gen_obligation("Gen_Msg.v type-checks", r.ok, r.err[-300:])
     ctx.props("C15")
     ctx.trusted.append("gen/msg_tables.py: reads MESSAGE_CLASSES/RETURN_MESSAGE_CLASSES, each class's TYPE and ctypes "
-                       "layout (incl. alignment padding), ReturnArrayMessageHeader, OptionalInt layout and tags; "
-                       "checks three source lines of ReturnArrayMessage textually")
+                       "layout (incl. alignment padding), ReturnArrayMessageHeader, OptionalInt layout and tags")
     ctx.assume.append("field values are those stored in the ctypes object (constructor-time truncation of over-wide Python "
                       "ints is outside C15; returned-array entries are assumed to fit 32 bits)")
     t = mt.tables(ctx.repo)
